@@ -14,8 +14,8 @@ NSHARDS = {"quick": 32, "thorough": 64}
 BUDGET_S = {"quick": 200, "thorough": 1800}
 EXTRA_BUILDS = {"thorough": ["rel"]}
 MIN_HITS = {
-    "quick": {"der_rt": 400, "last_byte_is_flag": 150, "last_byte_not_flag": 150, "der_plus_flag": 3000, "compact_rt": 300, "recover": 150, "der_bad": 300, "compact_bad": 100},
-    "thorough": {"der_rt": 8000, "last_byte_is_flag": 3000, "der_plus_flag": 60000, "compact_rt": 6000, "recover": 3000, "der_bad": 6000, "compact_bad": 2000},
+    'quick': {"der_rt": 400, "last_byte_is_flag": 150, "last_byte_not_flag": 150, "der_plus_flag": 3000, "compact_rt": 300, "recover": 150, "der_bad": 300, "compact_bad": 100},
+    'thorough': {"der_rt": 103680, "last_byte_is_flag": 40433, "der_plus_flag": 1128960, "compact_rt": 645120, "recover": 23040, "der_bad": 168960, "compact_bad": 145920},
 }
 FLAGS = [0x40, 0x01, 0x02, 0x03, 0x80, 0x41, 0x42, 0x43, 0xC1, 0xC2, 0xC3, 0x81, 0x82, 0x83]
 NONFLAGS = [0x00, 0x04, 0x05, 0x10, 0x3F, 0x44, 0x7F, 0x84, 0xC0, 0xC4, 0xFE, 0xFF, 0x30, 0x21]
